@@ -11,3 +11,6 @@ for p in rel dbg; do
   cargo build --profile $p --manifest-path engine/Cargo.toml --no-default-features --features bstd,bextra --target-dir engine/target-extra >/dev/null 2>&1 || { echo "engine extra/$p build failed"; exit 1; }
 done
 echo setup ok
+cargo build --profile rel --manifest-path conc/Cargo.toml --target-dir conc/target >/dev/null 2>&1 || { echo "conc build failed"; exit 1; }
+( cd sanit && RUSTFLAGS="-Zsanitizer=thread" cargo +nightly build -Zbuild-std --target x86_64-unknown-linux-gnu --release --target-dir target-tsan >/dev/null 2>&1 ) || echo "note: TSan build of sanit failed (C06 reports it as a note, not a verdict)"
+echo setup complete
